@@ -118,6 +118,22 @@ class FakeFrame:
         return not self.__eq__(other)
 
 
+def _names_a_position(exception):
+    """
+    Whether this is a SyntaxError that says where it is, the way the parser's
+    own do. One that a program raises itself may carry anything in these
+    fields (or nothing), and is then treated like any other exception.
+    """
+    def whole(number, least):
+        return type(number) is int and number >= least
+    return (isinstance(exception, SyntaxError)
+            and whole(exception.lineno, 1)
+            and (exception.offset is None or whole(exception.offset, 0))
+            and isinstance(exception.filename, str)
+            and (getattr(exception, 'end_lineno', None) is None or whole(exception.end_lineno, 1))
+            and (getattr(exception, 'end_offset', None) is None or whole(exception.end_offset, -1)))
+
+
 class ExpandedTraceback:
     """
     Class for reformatting tracebacks to have more pertinent information.
@@ -148,8 +164,8 @@ class ExpandedTraceback:
         located_frame = (student_frames or frames)[-1]
         # Inside a section, report the line of the original file
         self.line_number = located_frame[1] + line_offsets.get(located_frame[0], 0)
-        if (not student_frames and isinstance(exception, SyntaxError)
-                and exception.lineno is not None and exception.filename in show_filenames):
+        if (not student_frames and _names_a_position(exception)
+                and exception.filename in show_filenames):
             # The student's file did not compile, so none of the frames is theirs
             # (the innermost one is pedal's own call to compile); the error itself
             # names the line.
@@ -184,7 +200,7 @@ class ExpandedTraceback:
         frames = list(tb_e.stack)
         # A SyntaxError has to be handled differently to actually get its output:
         # https://docs.python.org/3/library/traceback.html#traceback.print_exception
-        if isinstance(self.exception, SyntaxError) and self.exception.lineno is not None:
+        if _names_a_position(self.exception):
             offset = self.exception.offset or 1
             if IS_AT_LEAST_PYTHON_310 and not IS_SKULPT:
                 end_lineno = self.exception.end_lineno
@@ -309,10 +325,11 @@ class ExpandedTraceback:
             end_offset = frame.end_colno+1 if frame.lineno == frame.end_lineno else len(frame.line)
             return formatter.python_code(frame.line, focus=Location(0, frame.colno + 1, 0, end_offset))
         elif IS_AT_LEAST_PYTHON_311:
-            end_offset = frame.end_colno+1 if frame.lineno == frame.end_lineno else len(frame._line)
             # Note: Need to use _line because in 3.10 and above, the line gets stripped.
             # https://github.com/python/cpython/commit/5644c7b3ffd49bed58dc095be6e6148e0bb4431e
+            # (there is no line for a position in a file that is not the student's)
             line = frame._line if frame._line is not None else ''
+            end_offset = frame.end_colno+1 if frame.lineno == frame.end_lineno else len(line)
             return formatter.python_code(line, focus=Location(0, frame.colno+1, 0, end_offset))
         elif IS_AT_LEAST_PYTHON_310:
             return formatter.python_code(frame._line if frame._line is not None else '')
